@@ -146,7 +146,7 @@ MockMetaClauses(stim, cli, hc, tc) ==
   LET m == stim.mock  all == m.hmeta \o m.tmeta IN
   << <<"C08.InitialMetadataReceived", cli.ok => MetadataReceived(cli.init, m.hmeta)>>,
      <<"C08.TrailerMetadataReceived", cli.ok => MetadataReceived(IF stim.shape = "unary" THEN cli.init ELSE cli.trailers, m.tmeta)>>,
-     <<"C08.ErrorMetadataReceived", (~cli.ok /\ hc = -1 /\ tc > 0 /\ cli.st.code = tc) => MetadataReceived(cli.st.meta, m.tmeta)>>,
+     <<"C08.ErrorMetadataReceived", (~cli.ok /\ hc = -1 /\ tc > 0) => MetadataReceived(cli.st.meta, m.tmeta)>>,
      <<"C08.NoPartialEntry", ~cli.ok => \A n \in MetaNames(all) : MetaVals(cli.st.meta, n) \in {<<>>, MetaVals(all, n)}>> >>
 MockClauses(stim, cli) ==
   LET m == stim.mock  enc == MockEnc(m)  accept == SeqToSet(stim.client.accept)
